@@ -38,7 +38,7 @@ def run(ck, rng):
     forests = enum_forests(4 if ck.tier == "quick" else 5) + wide_forests(10)[::3]
     for _ in range(250 if ck.tier == "quick" else 6000):
         forests.append(gen_forest(rng, max_nodes=14 if rng.random() < 0.8 else 40, pool=rng.choice(["mixed", "ascii", "fs", "fs_hostile"])))
-    cases, specs, texts, meta = [], [], [], []
+    cases, mcases, specs, texts, meta = [], [], [], [], []
     for items in forests:
         n = len(items)
         bf = rng.choice(BF_CHOICES)
@@ -46,27 +46,38 @@ def run(ck, rng):
         stops = [None] + (list(range(n)) if n <= 12 else rng.sample(range(n), 6))
         roots = merged_items(items)
         for k in stops:
-            kk = "-" if k is None else str(k)
-            variants = [("md", "hist w,%s,%s,%s" % (bf_csv(bf), kk, hx(doc))), ("md_dep", "hist wd,%s,%s,%s" % (bf_csv(bf), kk, hx(doc)))]
-            # From-Root variants act on one root: use the first root's tree
+            # the error the callback returns: the harness's own, or a value that has a meaning elsewhere in Go
+            # (fs.SkipDir, fs.SkipAll, io.EOF, context.Canceled, an error wrapping context.Canceled): returned UNCHANGED
+            kplain = "-" if k is None else str(k)
+            kk = kplain if k is None else kplain + rng.choice(["", "", "", "s", "a", "e", "c", "w"])
             r0 = roots[0]
             build = canonical_build(r0)
-            variants += [("root", "hist " + ";".join(build + ["W,0,%s,%s" % (bf_csv(bf), kk)])),
-                         ("root_dep", "hist " + ";".join(build + ["Wd,0,%s,%s" % (bf_csv(bf), kk)])),
-                         ("iter", "hist " + ";".join(build + ["I,0,%s,%s" % (bf_csv(bf), kk)])),
-                         ("iter_dep", "hist " + ";".join(build + ["Id,0,%s,%s" % (bf_csv(bf), kk)]))]
-            if rng.random() < 0.15:
-                # an encoding option on a walk call must not change what is visited
-                e = rng.choice("jyt")
-                variants = [(nm, c + "," + e) if not nm.startswith("iter") else (nm, c) for nm, c in variants]
-            for name, c in (variants if ck.tier == "thorough" else rng.sample(variants, 2)):
+            enc_opt = rng.choice("jyt") if rng.random() < 0.15 else None
+
+            def mk_variants(kw):
+                # From-Root variants act on one root: use the first root's tree
+                vs = [("md", "hist w,%s,%s,%s" % (bf_csv(bf), kw, hx(doc))), ("md_dep", "hist wd,%s,%s,%s" % (bf_csv(bf), kw, hx(doc))),
+                      ("root", "hist " + ";".join(build + ["W,0,%s,%s" % (bf_csv(bf), kw)])),
+                      ("root_dep", "hist " + ";".join(build + ["Wd,0,%s,%s" % (bf_csv(bf), kw)])),
+                      ("iter", "hist " + ";".join(build + ["I,0,%s,%s" % (bf_csv(bf), kplain)])),
+                      ("iter_dep", "hist " + ";".join(build + ["Id,0,%s,%s" % (bf_csv(bf), kplain)]))]
+                if enc_opt:
+                    # an encoding option on a walk call must not change what is visited
+                    vs = [(nm, c + "," + enc_opt) if not nm.startswith("iter") else (nm, c) for nm, c in vs]
+                return vs
+            variants = mk_variants(kk)
+            mvariants = mk_variants(kplain)     # the model's callback is an oracle "fails at visit k"
+            idxs = list(range(len(variants))) if ck.tier == "thorough" else rng.sample(range(len(variants)), 2)
+            for vi in idxs:
+                name, c = variants[vi]
                 its = items if name.startswith("md") else r0
                 cases.append(c)
+                mcases.append(mvariants[vi][1])
                 specs.append("specwalk %s %s" % (bf_args(bf), items_arg(its)))
                 texts.append("spec %s %s" % (bf_args(bf), items_arg(its)))
                 meta.append((name, its, k))
     impl, _ = run_impl(exe, cases)
-    model = run_model(cases)
+    model = run_model(mcases)
     spec = run_model(specs)
     text = run_model(texts)
     broken = None
